@@ -93,15 +93,16 @@ func AppendDecimal(b []byte, f float64, dec int) []byte {
 	}
 	f *= math.Pow10(dec)
 
-	// correct rounding
-	if 0.0 <= f {
-		f += 0.5
-	} else {
-		f -= 0.5
+	// correct rounding: half away from zero of the scaled value itself, adding 0.5 to the float would round a second
+	// time (0.49999999999999994+0.5 is 1.0, and an odd integer above 2^52 plus 0.5 is the next even integer)
+	num := int64(f)
+	if frac := f - float64(num); 0.5 <= frac {
+		num++
+	} else if frac <= -0.5 {
+		num--
 	}
 
 	// calculate mantissa and exponent
-	num := int64(f)
 	if num == 0 {
 		return append(b, '0')
 	}
